@@ -525,3 +525,423 @@ Proof.
   replace (length b) with (length b + 0)%nat at 1 by lia. rewrite firstn_app_2. cbn [firstn].
   rewrite app_nil_r, He. rewrite new_digest_valid by assumption. reflexivity.
 Qed.
+
+(** * Splitting and joining at slashes *)
+Definition slash_free (c : bytes) : Prop := ~ In slash c.
+
+Lemma fields_aux_app c : forall cur rest,
+  slash_free c -> fields_aux cur (c ++ rest) = fields_aux (rev c ++ cur) rest.
+Proof.
+  induction c as [|x c IH]; intros cur rest H; [reflexivity|].
+  cbn [app fields_aux].
+  assert (x =? slash = false) as -> by (apply N.eqb_neq; intro E; apply H; left; auto).
+  rewrite IH by (intro K; apply H; right; exact K).
+  cbn [rev]. rewrite <- app_assoc. reflexivity.
+Qed.
+
+Lemma nonempty_true {T} (l : list T) : l <> [] -> nonempty l = true.
+Proof. destruct l; [congruence|reflexivity]. Qed.
+
+Lemma fields_join l :
+  Forall (fun c => c <> [] /\ slash_free c) l -> fields_by_slash (join_slash l) = l.
+Proof.
+  unfold fields_by_slash. induction l as [|x r IH]; intro H; [reflexivity|].
+  inversion H as [|? ? [Hne Hsf] Hr]; subst.
+  destruct r as [|y r'].
+  - cbn [join_slash]. rewrite <- (app_nil_r x) at 1. rewrite fields_aux_app by exact Hsf.
+    cbn [fields_aux]. rewrite app_nil_r.
+    rewrite nonempty_true by (intro E; apply Hne; apply (f_equal (@rev N)) in E;
+                              rewrite rev_involutive in E; exact E).
+    rewrite rev_involutive. reflexivity.
+  - change (join_slash (x :: y :: r')) with (x ++ slash :: join_slash (y :: r')).
+    rewrite fields_aux_app by exact Hsf. cbn [fields_aux]. rewrite N.eqb_refl, app_nil_r.
+    rewrite nonempty_true by (intro E; apply Hne; apply (f_equal (@rev N)) in E;
+                              rewrite rev_involutive in E; exact E).
+    rewrite rev_involutive. rewrite IH by exact Hr. reflexivity.
+Qed.
+
+Lemma join_join comps rest :
+  comps <> [] -> join_slash (join_slash comps :: rest) = join_slash (comps ++ rest).
+Proof.
+  induction comps as [|x r IH]; intro H; [congruence|].
+  destruct r as [|y r'].
+  - reflexivity.
+  - change (join_slash (x :: y :: r')) with (x ++ slash :: join_slash (y :: r')).
+    change ((x :: y :: r') ++ rest) with (x :: (y :: r') ++ rest).
+    destruct rest as [|z rest'].
+    + rewrite app_nil_r. reflexivity.
+    + change (join_slash (x :: (y :: r') ++ z :: rest'))
+        with (x ++ slash :: join_slash ((y :: r') ++ z :: rest')).
+      rewrite <- IH by discriminate.
+      change (join_slash ((x ++ slash :: join_slash (y :: r')) :: z :: rest'))
+        with ((x ++ slash :: join_slash (y :: r')) ++ slash :: join_slash (z :: rest')).
+      change (join_slash (join_slash (y :: r') :: z :: rest'))
+        with (join_slash (y :: r') ++ slash :: join_slash (z :: rest')).
+      rewrite <- app_assoc. reflexivity.
+Qed.
+
+Lemma join_slash_nonempty comps :
+  comps <> [] -> Forall (fun c => c <> []) comps -> join_slash comps <> [].
+Proof.
+  destruct comps as [|x r]; [congruence|]. intros _ H. inversion H; subst.
+  destruct r; cbn; [assumption|]. destruct x; [congruence|discriminate].
+Qed.
+
+(** the formatters' join applied to an instance name followed by other components *)
+Lemma path_join_instance comps ps :
+  Forall (fun c => c <> []) comps ->
+  path_join (join_slash comps :: ps) = join_slash (comps ++ filter nonempty ps).
+Proof.
+  intro H. unfold path_join. cbn [filter].
+  destruct comps as [|x r].
+  - reflexivity.
+  - rewrite nonempty_true by (apply join_slash_nonempty; [discriminate|exact H]).
+    apply join_join. discriminate.
+Qed.
+
+Lemma valid_component_facts comps :
+  Forall valid_component comps ->
+  Forall (fun c => c <> []) comps /\ Forall (fun c => c <> [] /\ slash_free c) comps
+  /\ Forall (fun c => memb c c20_reserved = false) comps.
+Proof.
+  intro H. repeat split; eapply Forall_impl; try exact H; intros c [A [B C]]; auto.
+  destruct (memb c c20_reserved) eqn:E; [|reflexivity]. apply memb_In in E. contradiction.
+Qed.
+
+Lemma validate_components_valid comps :
+  Forall valid_component comps -> validate_components comps = Ok tt.
+Proof.
+  induction 1 as [|c r [A [B C]] Hr IH]; [reflexivity|]. cbn [validate_components].
+  rewrite nonempty_true by exact A.
+  destruct (memb c c20_reserved) eqn:E; [apply memb_In in E; contradiction|exact IH].
+Qed.
+
+(** * The split loop of the parsers *)
+Lemma nth_field_app_l (pre : list bytes) x post i :
+  (i < length pre)%nat -> nth_field (pre ++ x :: post) i = Ok (nth i pre []).
+Proof.
+  intro H. unfold nth_field. rewrite nth_error_app1 by exact H.
+  rewrite (nth_error_nth' pre [] H). reflexivity.
+Qed.
+Lemma nth_field_app_mid (pre : list bytes) x post : nth_field (pre ++ x :: post) (length pre) = Ok x.
+Proof.
+  unfold nth_field. rewrite nth_error_app2 by lia. rewrite Nat.sub_diag. reflexivity.
+Qed.
+
+Lemma find_split_app stop pre x post k : forall n i fuel,
+  (forall c, In c pre -> stop c = false) -> stop x = true ->
+  (length pre + k <= length (pre ++ x :: post))%nat ->
+  (n = length pre - i)%nat -> (i <= length pre)%nat -> (n < fuel)%nat ->
+  find_split stop (pre ++ x :: post) k i fuel = Ok (length pre).
+Proof.
+  induction n as [|n IH]; intros i fuel Hpre Hx Hlen Hn Hi Hf;
+    (destruct fuel as [|fuel]; [lia|]); cbn [find_split].
+  - assert (i = length pre) by lia. subst i. rewrite nth_field_app_mid. cbn [bind]. rewrite Hx. reflexivity.
+  - rewrite nth_field_app_l by lia. cbn [bind].
+    rewrite Hpre by (apply nth_In; lia).
+    destruct (Nat.ltb_spec (length (pre ++ x :: post) - k) (S i)); [lia|].
+    apply IH; try assumption; lia.
+Qed.
+
+(** * More table facts *)
+Definition bare_eqb (a : option bare) (fn hb : N) : bool :=
+  match a with Some (e, h) => (e =? fn) && (h =? hb) | None => false end.
+Lemma bare_eqb_true a fn hb : bare_eqb a fn hb = true -> a = Some (fn, hb).
+Proof.
+  destruct a as [[e h]|]; cbn; [|discriminate]. rewrite andb_true_iff, !N.eqb_eq. intros [-> ->]. reflexivity.
+Qed.
+
+Definition no_slash (s : bytes) : bool := negb (existsb (N.eqb slash) s).
+Lemma no_slash_free s : no_slash s = true -> slash_free s.
+Proof.
+  unfold no_slash, slash_free. intros H K. apply negb_true_iff in H.
+  assert (existsb (N.eqb slash) s = true) as E by (apply existsb_exists; exists slash; split; [exact K|apply N.eqb_refl]).
+  congruence.
+Qed.
+
+Definition fn_entry_ok (p : N * bytes) : bool :=
+  let fn := fst p in
+  match assoc fn c20_bare_by_enum with
+  | Some (_, hb) =>
+      if c20_midfix_above <? fn then
+        match assoc fn midfix_functions with
+        | Some name => nonempty name && no_slash name && bare_eqb (function_by_name name) fn hb
+        | None => false
+        end
+      else
+        match assoc fn midfix_functions with
+        | Some _ => false
+        | None => bare_eqb (assoc (2 * hb) c20_bare_by_size) fn hb
+        end
+  | None => false
+  end.
+Lemma fn_tables_ok : forallb fn_entry_ok c20_supported = true.
+Proof. vm_compute. reflexivity. Qed.
+Lemma midfix_names_short :
+  forallb (fun p => (length (snd p) <? N.to_nat c20_shortest_hash_string_size)%nat) midfix_functions = true.
+Proof. vm_compute. reflexivity. Qed.
+
+Definition compressor_entry_ok (p : N * bytes) : bool :=
+  negb (fst p =? c20_compressor_identity)
+  && match assoc (fst p) c20_compressors with Some n => beqb n (snd p) | None => false end
+  && match assoc_name (snd p) c20_compressors with Some c => c =? fst p | None => false end
+  && nonempty (snd p) && no_slash (snd p).
+Lemma compressor_tables_ok : forallb compressor_entry_ok c20_compressors = true.
+Proof. vm_compute. reflexivity. Qed.
+Lemma keyword_facts :
+  beqb c20_compressed_blobs c20_blobs = false /\
+  nonempty c20_blobs = true /\ no_slash c20_blobs = true /\
+  nonempty c20_compressed_blobs = true /\ no_slash c20_compressed_blobs = true /\
+  nonempty c20_uploads = true /\ no_slash c20_uploads = true /\
+  memb c20_blobs c20_reserved = true /\ memb c20_compressed_blobs c20_reserved = true /\
+  memb c20_uploads c20_reserved = true.
+Proof. vm_compute. repeat split; reflexivity. Qed.
+
+Lemma assoc_name_short k (tbl : list (N * bytes)) n :
+  forallb (fun p => (length (snd p) <? n)%nat) tbl = true -> (n <= length k)%nat ->
+  assoc_name k tbl = None.
+Proof.
+  induction tbl as [|[v k'] r IH]; intros H L; [reflexivity|].
+  cbn in H. apply andb_true_iff in H as [H1 H2]. apply Nat.ltb_lt in H1. cbn [assoc_name].
+  destruct (beqb k k') eqn:E; [apply beqb_eq in E; subst; lia|]. apply IH; assumption.
+Qed.
+
+Lemma compressor_facts comp :
+  In comp (map fst c20_compressors) ->
+  exists name, compressor_midfix comp = [c20_compressed_blobs; name] /\
+               compressor_by_name name = Some comp /\ name <> [] /\ slash_free name.
+Proof.
+  rewrite in_map_iff. intros [[c n] [E H]]. cbn in E. subst c.
+  pose proof compressor_tables_ok as T. rewrite forallb_forall in T. specialize (T _ H).
+  unfold compressor_entry_ok in T. cbn [fst snd] in T.
+  rewrite !andb_true_iff in T. destruct T as [[[[T1 T2] T3] T4] T5].
+  apply negb_true_iff in T1.
+  destruct (assoc comp c20_compressors) as [n'|] eqn:A; [|discriminate]. apply beqb_eq in T2. subst n'.
+  destruct (assoc_name n c20_compressors) as [c'|] eqn:B; [|discriminate]. apply N.eqb_eq in T3. subst c'.
+  exists n. unfold compressor_midfix, compressor_by_name. rewrite T1, A, B.
+  repeat split; [destruct n; [discriminate|congruence]|apply no_slash_free; exact T5].
+Qed.
+
+Lemma parse_int_dec n : n < 2 ^ 63 -> parse_int (dec n) = Some (Z.of_N n).
+Proof.
+  intro H. pose proof (dec_digits n) as D. pose proof (dec_nonempty n) as NE.
+  pose proof (horner_dec n) as Hh.
+  unfold parse_int. destruct (dec n) as [|c r] eqn:E; [congruence|].
+  assert (is_digit c = true) as Dc by (cbn in D; apply andb_true_iff in D; tauto).
+  apply is_digit_range in Dc.
+  assert (c =? 43 = false) as -> by (apply N.eqb_neq; lia).
+  assert (c =? dash = false) as -> by (apply N.eqb_neq; unfold dash; lia).
+  rewrite D, Hh. apply N.ltb_lt in H. rewrite H. reflexivity.
+Qed.
+
+(** * The common part of the resource name parsers on a formatted name *)
+Definition formatted_tail (d : digest) (comp : N) : list bytes :=
+  compressor_midfix comp ++ filter nonempty [function_midfix (d_fn d)]
+  ++ [d_hash d; dec (Z.to_N (d_size d))].
+
+Lemma parse_function_part d inst (comp : N) :
+  valid_digest d -> d_inst d = inst ->
+  (h0 <- nth_field (filter nonempty [function_midfix (d_fn d)] ++ [d_hash d; dec (Z.to_N (d_size d))]) 0 ;;
+   '(f, trailer2) <-
+      (match function_by_name h0 with
+       | Some f => Ok (f, skipn 1 (filter nonempty [function_midfix (d_fn d)] ++ [d_hash d; dec (Z.to_N (d_size d))]))
+       | None =>
+           match get_bare_function c20_enum_unknown (N.of_nat (length h0)) with
+           | Some f => Ok (f, filter nonempty [function_midfix (d_fn d)] ++ [d_hash d; dec (Z.to_N (d_size d))])
+           | None => Err InvalidArgument
+           end
+       end) ;;
+   if (length trailer2 <? 2)%nat then Err InvalidArgument
+   else
+     h <- nth_field trailer2 0 ;;
+     s <- nth_field trailer2 1 ;;
+     match parse_int s with
+     | None => Err InvalidArgument
+     | Some size => dd <- new_digest inst f h size ;; Ok (dd, comp)
+     end) = Ok (pack d, comp).
+Proof.
+  intros V <-. destruct (valid_bare d V) as [hb [Hbare [Hlen Hmin]]].
+  destruct (supported_entry _ (vd_fn d V)) as [nm Hnm].
+  pose proof fn_tables_ok as T. rewrite forallb_forall in T. specialize (T _ Hnm).
+  unfold fn_entry_ok in T. cbn [fst] in T.
+  assert (assoc (d_fn d) c20_bare_by_enum = Some (d_fn d, hb)) as Ha.
+  { unfold get_bare_function in Hbare. destruct (d_fn d =? c20_enum_unknown) eqn:E; [|exact Hbare].
+    destruct (supported_facts _ (vd_fn d V)) as [_ [Hu _]]. apply N.eqb_eq in E. contradiction. }
+  rewrite Ha in T.
+  assert (Hpi : parse_int (dec (Z.to_N (d_size d))) = Some (d_size d)).
+  { pose proof (vd_size d V) as S. rewrite parse_int_dec.
+    - rewrite Z2N.id by lia. reflexivity.
+    - assert ((2 ^ 63)%Z = Z.of_N (2 ^ 63)) as E by reflexivity. lia. }
+  unfold function_midfix.
+  destruct (c20_midfix_above <? d_fn d).
+  - destruct (assoc (d_fn d) midfix_functions) as [name|]; [|discriminate].
+    rewrite !andb_true_iff in T. destruct T as [[T1 T2] T3]. apply bare_eqb_true in T3.
+    cbn [filter]. rewrite T1. cbn [app nth_field nth_error bind]. rewrite T3.
+    cbn [bind skipn length Nat.ltb Nat.leb nth_field nth_error]. rewrite Hpi.
+    rewrite new_digest_valid by assumption. reflexivity.
+  - destruct (assoc (d_fn d) midfix_functions) as [name|]; [discriminate|].
+    apply bare_eqb_true in T. cbn [filter nonempty app nth_field nth_error bind].
+    unfold function_by_name. rewrite (assoc_name_short _ _ _ midfix_names_short Hmin).
+    unfold get_bare_function. rewrite N.eqb_refl, Hlen, T.
+    cbn [bind length Nat.ltb Nat.leb nth_field nth_error]. rewrite Hpi.
+    rewrite new_digest_valid by assumption. reflexivity.
+Qed.
+
+Lemma parse_common_valid d comp comps :
+  valid_digest d -> d_inst d = join_slash comps -> Forall valid_component comps ->
+  valid_compressor comp ->
+  parse_common comps (formatted_tail d comp) = Ok (pack d, comp).
+Proof.
+  intros V Hi Hc Hcomp. unfold parse_common, new_instance_name_from_components.
+  rewrite validate_components_valid by exact Hc. cbn [bind].
+  destruct keyword_facts as [K1 _].
+  unfold formatted_tail.
+  destruct Hcomp as [->|Hcomp].
+  - unfold compressor_midfix. rewrite N.eqb_refl.
+    cbn [app nth_field nth_error bind]. rewrite beqb_refl. cbn [bind skipn].
+    apply parse_function_part; auto.
+  - destruct (compressor_facts comp Hcomp) as [name [-> [Hn _]]].
+    cbn [app nth_field nth_error bind]. rewrite K1, beqb_refl. cbn [bind nth_field nth_error].
+    rewrite Hn. cbn [bind skipn].
+    apply parse_function_part; auto.
+Qed.
+
+(** * Read and write resource names: format, then parse *)
+Lemma digits_slash_free s : forallb is_digit s = true -> slash_free s.
+Proof.
+  intros H K. rewrite forallb_forall in H. specialize (H _ K). apply is_digit_range in H.
+  unfold slash in H. lia.
+Qed.
+Lemma lowerhex_slash_free s : forallb lowerhex s = true -> slash_free s.
+Proof.
+  intros H K. rewrite forallb_forall in H. specialize (H _ K). unfold lowerhex, slash in H.
+  rewrite orb_true_iff, !andb_true_iff, !N.leb_le in H. lia.
+Qed.
+
+Definition good_field (c : bytes) : Prop := c <> [] /\ slash_free c.
+
+Lemma nonempty_neq {T} (l : list T) : nonempty l = true -> l <> [].
+Proof. destruct l; [discriminate|congruence]. Qed.
+
+Lemma formatted_tail_facts d comp :
+  valid_digest d -> valid_compressor comp ->
+  Forall good_field (formatted_tail d comp) /\
+  (exists x post, formatted_tail d comp = x :: post /\
+                  (beqb x c20_blobs || beqb x c20_compressed_blobs) = true /\ (2 <= length post)%nat) /\
+  filter nonempty (compressor_midfix comp ++ [function_midfix (d_fn d); d_hash d; format_int (d_size d)])
+  = formatted_tail d comp.
+Proof.
+  intros V Hcomp. destruct (valid_bare d V) as [hb [Hbare [Hlen Hmin]]].
+  destruct keyword_facts as [_ [B1 [B2 [C1 [C2 _]]]]].
+  assert (Hh : good_field (d_hash d)).
+  { split; [|apply lowerhex_slash_free, (vd_hex d V)].
+    assert (N.to_nat c20_shortest_hash_string_size = 32%nat) as E by reflexivity. rewrite E in Hmin.
+    destruct (d_hash d); [cbn in Hmin; lia|discriminate]. }
+  assert (Hs : good_field (dec (Z.to_N (d_size d)))).
+  { split; [apply dec_nonempty|apply digits_slash_free, dec_digits]. }
+  assert (Hf : Forall good_field (filter nonempty [function_midfix (d_fn d)])).
+  { destruct (supported_entry _ (vd_fn d V)) as [nm Hnm].
+    pose proof fn_tables_ok as T. rewrite forallb_forall in T. specialize (T _ Hnm).
+    unfold fn_entry_ok in T. cbn [fst] in T. unfold function_midfix.
+    destruct (assoc (d_fn d) c20_bare_by_enum) as [[e h]|]; [|discriminate].
+    destruct (c20_midfix_above <? d_fn d).
+    - destruct (assoc (d_fn d) midfix_functions) as [name|]; [|discriminate].
+      rewrite !andb_true_iff in T. destruct T as [[T1 T2] _]. cbn [filter]. rewrite T1.
+      constructor; [|constructor]. split; [apply nonempty_neq, T1|apply no_slash_free, T2].
+    - destruct (assoc (d_fn d) midfix_functions); [discriminate|]. cbn. constructor. }
+  rewrite format_int_nonneg by (pose proof (vd_size d V); lia).
+  unfold formatted_tail.
+  assert (Hne : filter nonempty [d_hash d; dec (Z.to_N (d_size d))] = [d_hash d; dec (Z.to_N (d_size d))]).
+  { cbn [filter]. rewrite !nonempty_true by (apply Hh || apply Hs). reflexivity. }
+  destruct Hcomp as [->|Hcomp].
+  - unfold compressor_midfix. rewrite N.eqb_refl. repeat split.
+    + constructor; [split; [apply nonempty_neq, B1|apply no_slash_free, B2]|].
+      apply Forall_app. split; [exact Hf|repeat constructor; apply Hh || apply Hs].
+    + eexists _, _. split; [reflexivity|]. rewrite beqb_refl. split; [reflexivity|].
+      rewrite app_length. cbn. lia.
+    + change [function_midfix (d_fn d); d_hash d; dec (Z.to_N (d_size d))]
+        with ([function_midfix (d_fn d)] ++ [d_hash d; dec (Z.to_N (d_size d))]).
+      rewrite !filter_app. cbn [filter]. rewrite B1, (nonempty_true _ (proj1 Hh)), (nonempty_true _ (proj1 Hs)). reflexivity.
+  - destruct (compressor_facts comp Hcomp) as [name [-> [_ [N1 N2]]]]. repeat split.
+    + constructor; [split; [apply nonempty_neq, C1|apply no_slash_free, C2]|].
+      constructor; [split; assumption|].
+      apply Forall_app. split; [exact Hf|repeat constructor; apply Hh || apply Hs].
+    + eexists _, _. split; [reflexivity|]. rewrite beqb_refl, orb_true_r. split; [reflexivity|].
+      cbn [length]. rewrite app_length. cbn. lia.
+    + change [function_midfix (d_fn d); d_hash d; dec (Z.to_N (d_size d))]
+        with ([function_midfix (d_fn d)] ++ [d_hash d; dec (Z.to_N (d_size d))]).
+      rewrite !filter_app. cbn [filter]. rewrite C1, (nonempty_true name N1), (nonempty_true _ (proj1 Hh)), (nonempty_true _ (proj1 Hs)). reflexivity.
+Qed.
+
+Lemma not_reserved_not_keyword c :
+  valid_component c ->
+  beqb c c20_blobs = false /\ beqb c c20_compressed_blobs = false /\ beqb c c20_uploads = false.
+Proof.
+  intros [_ [_ H]]. destruct keyword_facts as [_ [_ [_ [_ [_ [_ [_ [R1 [R2 R3]]]]]]]]].
+  apply memb_In in R1, R2, R3.
+  repeat split; apply beqb_neq; intros ->; contradiction.
+Qed.
+
+Theorem read_path_roundtrip_proof d comp :
+  valid_digest d -> valid_compressor comp ->
+  exists s, get_read_path (pack d) comp = Ok s /\ parse_read_path s = Ok (pack d, comp).
+Proof.
+  intros V Hcomp. destruct (vd_inst d V) as [comps [Hi Hc]].
+  destruct (valid_component_facts comps Hc) as [Hne [Hgf _]].
+  destruct (formatted_tail_facts d comp V Hcomp) as [Hgood [[x [post [Ht [Hx Hp]]]] Hfil]].
+  pose proof (unpack_pack d V) as U.
+  destruct (pack_unpack_accessors d V) as [_ [Hh [_ [Hin _]]]].
+  unfold get_hash_string, get_instance_name in Hh, Hin. rewrite U in Hh, Hin. cbn [bind u_hs u_he u_se] in Hh, Hin.
+  exists (join_slash (comps ++ formatted_tail d comp)). split.
+  - unfold get_read_path. rewrite U. cbn [bind u_hs u_he u_se u_fn u_size]. rewrite Hin, Hh. cbn [bind].
+    f_equal. cbn [app]. rewrite Hi, path_join_instance by exact Hne. rewrite Hfil. reflexivity.
+  - unfold parse_read_path.
+    rewrite fields_join by (apply Forall_app; split; assumption).
+    rewrite Ht in *.
+    destruct (Nat.ltb_spec (length (comps ++ x :: post)) 3) as [L|L];
+      [rewrite app_length in L; cbn in L; lia|].
+    rewrite (find_split_app _ comps x post 3 (length comps) 0 _); try lia; try assumption.
+    + cbn [bind]. rewrite firstn_app, Nat.sub_diag, firstn_all, firstn_O, app_nil_r.
+      rewrite skipn_app, Nat.sub_diag, skipn_all. cbn [app skipn].
+      rewrite <- Ht. apply parse_common_valid; assumption.
+    + intros c Hcin. rewrite Forall_forall in Hc.
+      destruct (not_reserved_not_keyword c (Hc c Hcin)) as [-> [-> _]]. reflexivity.
+    + rewrite app_length. cbn. lia.
+    + rewrite app_length. cbn. lia.
+Qed.
+
+Theorem write_path_roundtrip_proof d uuid comp :
+  valid_digest d -> valid_compressor comp -> uuid <> [] -> ~ In slash uuid ->
+  exists s, get_write_path (pack d) uuid comp = Ok s /\ parse_write_path s = Ok (pack d, comp).
+Proof.
+  intros V Hcomp Hu1 Hu2. destruct (vd_inst d V) as [comps [Hi Hc]].
+  destruct (valid_component_facts comps Hc) as [Hne [Hgf _]].
+  destruct (formatted_tail_facts d comp V Hcomp) as [Hgood [[x [post [Ht [Hx Hp]]]] Hfil]].
+  destruct keyword_facts as [_ [_ [_ [_ [_ [U1 [U2 _]]]]]]].
+  pose proof (unpack_pack d V) as U.
+  destruct (pack_unpack_accessors d V) as [_ [Hh [_ [Hin _]]]].
+  unfold get_hash_string, get_instance_name in Hh, Hin. rewrite U in Hh, Hin. cbn [bind u_hs u_he u_se] in Hh, Hin.
+  exists (join_slash (comps ++ c20_uploads :: uuid :: formatted_tail d comp)). split.
+  - unfold get_write_path. rewrite U. cbn [bind u_hs u_he u_se u_fn u_size]. rewrite Hin, Hh. cbn [bind].
+    f_equal. cbn [app]. rewrite Hi, path_join_instance by exact Hne. cbn [filter].
+    rewrite U1, (nonempty_true uuid Hu1), Hfil. reflexivity.
+  - unfold parse_write_path.
+    rewrite fields_join.
+    2:{ apply Forall_app. split; [exact Hgf|].
+        constructor; [split; [apply nonempty_neq, U1|apply no_slash_free, U2]|].
+        constructor; [split; assumption|exact Hgood]. }
+    assert (Ltail : (3 <= length (formatted_tail d comp))%nat) by (rewrite Ht; cbn; lia).
+    destruct (Nat.ltb_spec (length (comps ++ c20_uploads :: uuid :: formatted_tail d comp)) 5) as [L|L];
+      [rewrite app_length in L; cbn in L; lia|].
+    rewrite (find_split_app _ comps c20_uploads (uuid :: formatted_tail d comp) 5 (length comps) 0 _);
+      try lia.
+    + cbn [bind]. rewrite firstn_app, Nat.sub_diag, firstn_all, firstn_O, app_nil_r.
+      rewrite skipn_app. replace (length comps + 2 - length comps)%nat with 2%nat by lia.
+      rewrite skipn_all2 by lia. cbn [app skipn].
+      apply parse_common_valid; assumption.
+    + intros c Hcin. rewrite Forall_forall in Hc.
+      destruct (not_reserved_not_keyword c (Hc c Hcin)) as [_ [_ ->]]. reflexivity.
+    + apply beqb_refl.
+    + rewrite app_length. cbn. lia.
+    + rewrite app_length. cbn. lia.
+Qed.
